@@ -1020,4 +1020,16 @@ def apply(d):
         for f in d["fns"]:
             if f["path"] in gone:
                 f["desugared_away"] = True
+    # the memo idiom / handed-over closures inside closures that the passes above have just inlined
+    for f in order:
+        if f.get("inlined") and f.get("local", True) and not f.get("derived"):
+            try:
+                inl = desugar_entry_calls(d, f, fn_by_path) + direct_closure_calls(d, f, fn_by_path)
+            except Exception as e:
+                summary["skipped"].append("%s: %s" % (f["path"], e))
+                continue
+            if inl:
+                f.setdefault("inlined", []).extend(inl)
+                f.setdefault("desugared_closures", []).extend(inl)
+                summary["closures_inlined"].extend(inl)
     return summary
